@@ -2,7 +2,7 @@
 from . import common as C
 
 PARTIAL = ("PARTIAL: the round-trip theorems reach every rule of the response grammar through Spec.enc_response; spellings outside the Spec relations "
-           "(quoted strings with backslash escapes, more than one trailing body-extension, a quoted transfer encoding that merely starts with a known "
+           "(more than one trailing body-extension, a quoted transfer encoding that merely starts with a known "
            "name, METADATA entry names containing SP/CR) are decided by the implementation-side oracle and the model/implementation correspondence only")
 
 
